@@ -190,6 +190,14 @@ def run_seq(case, stt):
     stt.label("basis_" + spec["pol"])
 
 
+@st.composite
+def huge_case(draw):
+    n = draw(st.sampled_from([65535, 65536, 65537, 65538, 131073, 100000]))
+    spec = draw(G.signal_spec(classes=["DualPolarizationSignal"], nmin=n, nmax=n, nchan_max=1, max_trailing=0, data_kinds=("noise",)))
+    spec["n"], spec["sshape"] = n, [1, 2]
+    return {"sig": spec, "kind": "noise", "scale": 1.0, "dask": False}
+
+
 def run_err(spec, stt):
     import pulsarbat as pb
 
@@ -206,6 +214,9 @@ SUBS = [
         "dual-pol signals in both bases, c8/c16, nchan 1..5, 0..2 trailing dims, NumPy/Dask, data {noise, pure X/Y/L/R, zeros, mixed "
         "scales}, amplitude scales 1e-10..1e8; non-trivial = a sample with all four of Re/Im X, Y non-zero and |X| != |Y|",
         quick=1500, thorough=30000, pieces_quick=4),
+    Sub("long_signals", huge_case(), run_dp,
+        "the same conversion checks on signals of 65535..131073 samples (block boundaries at 2^16); non-trivial as above", quick=6, thorough=60,
+        pieces_quick=3, pieces_thorough=6),
     Sub("call_sequences", seq_case(), run_seq,
         "2..5 conversions called on the same object; each repeated call must give bit-identical results and leave the object untouched; "
         "non-trivial = some conversion repeated", quick=400, thorough=8000),
